@@ -77,6 +77,22 @@ def _blk_rows():
     return rows
 
 
+def _guard_rows():
+    rows = []
+    for bl in (16, 8):
+        for seg in (0, 1, bl - 1, bl, bl + 1, 2 * bl, 17, 136):
+            rows.append(("guard-cfb", bl, bl, seg))
+        for ivl in (0, bl - 1, bl + 1, 2 * bl):
+            rows.append(("guard-cfb", bl, ivl, 1))
+            rows.append(("guard-cbc", bl, ivl, 0))
+            rows.append(("guard-ofb", bl, ivl, 0))
+        rows.append(("guard-cbc", bl, bl, 0))
+        rows.append(("guard-ofb", bl, bl, 0))
+        for (pl, cl, b0len) in ((0, 0, bl), (0, bl + 1, bl), (bl, 1, bl), (bl - 1, 2, bl), (0, bl, bl - 1), (0, bl, bl + 1), (0, bl, bl), (bl - 1, 1, bl)):
+            rows.append(("guard-ctr", bl, pl, cl, b0len))
+    return rows
+
+
 _PROG = {}
 
 
@@ -200,6 +216,42 @@ def _run(prog, row):
             i = [j for j, (a, b) in enumerate(zip(out, ref)) if a != b][0]
             return "byte %d is %r, expected %r" % (i, out[i], ref[i])
         return None
+    if kind.startswith("guard-"):
+        mode = kind[6:]
+        bl = row[1]
+        src = "src/raw_%s.c" % mode
+        m = Machine(prog, src)
+        ci = cmodes.Cipher(m, bl)
+        if mode == "ctr":
+            _, bl, pl, cl, b0len = row
+            valid = b0len == bl and 0 < cl <= bl and pl + cl <= bl
+            rc, st = cmodes.start(m, "CTR_start_operation", [ci.p, m.alloc_bytes([1] * max(b0len, 1), "block0"), b0len, pl, cl, 0])
+            what = "counter block of %d bytes, prefix %d, counter %d (block %d)" % (b0len, pl, cl, bl)
+        else:
+            _, bl, ivl, seg = row
+            ivp = m.alloc_bytes([7] * max(ivl, 1), "iv")
+            if mode == "cfb":
+                valid = ivl == bl and 0 < seg <= bl
+                rc, st = cmodes.start(m, "CFB_start_operation", [ci.p, ivp, ivl, seg])
+                what = "IV of %d bytes, segment of %d bytes (block %d)" % (ivl, seg, bl)
+            else:
+                valid = ivl == bl
+                rc, st = cmodes.start(m, mode.upper() + "_start_operation", [ci.p, ivp, ivl])
+                what = "IV of %d bytes (block %d)" % (ivl, bl)
+        if valid and rc != 0:
+            return "%s is refused with code %#x" % (what, rc)
+        if not valid and rc == 0:
+            return "%s is accepted" % what
+        if rc == 0:
+            # use the object once: the geometry it accepted must be safe
+            data = cmodes.atoms("d", 2 * bl + 3 if mode in ("cfb", "ofb", "ctr") else 2 * bl)
+            codes, out = cmodes.transcrypt(m, mode.upper() + "_encrypt", st, data, [len(data)])
+            m.call(mode.upper() + "_stop_operation", [st])
+        else:
+            live = [o for o in m.objs.values() if o.kind == "heap" and not o.freed and o.name.startswith(("calloc", "malloc", "posix"))]
+            if live:
+                return "%s: refused, but %s stays allocated" % (what, live[0].name)
+        return None
     raise AnalysisError("unknown row kind %s" % kind)
 
 
@@ -223,7 +275,7 @@ def run_rows(root, rows):
         return [run_row(a) for a in args]
     # warm the AST cache once so that workers do not all run clang
     prog = _prog(root)
-    for src in set({"ctr": "src/raw_ctr.c", "ctrwrap": "src/raw_ctr.c", "cfb": "src/raw_cfb.c", "ofb": "src/raw_ofb.c",
+    for src in set({"guard-cfb": "src/raw_cfb.c", "guard-cbc": "src/raw_cbc.c", "guard-ofb": "src/raw_ofb.c", "guard-ctr": "src/raw_ctr.c", "ctr": "src/raw_ctr.c", "ctrwrap": "src/raw_ctr.c", "cfb": "src/raw_cfb.c", "ofb": "src/raw_ofb.c",
                     "cbc": "src/raw_cbc.c", "cbc-partial": "src/raw_cbc.c", "ecb": "src/raw_ecb.c",
                     "ecb-partial": "src/raw_ecb.c"}[r[0]] for r in rows):
         prog.tu(src)
@@ -232,6 +284,10 @@ def run_rows(root, rows):
 
 
 WHAT = {
+    "guard-cfb": ("src/raw_cfb.c", "CFB_start_operation", "IV length = block length and 0 < segment length <= block length, everything else refused; an accepted geometry is then used without any out-of-bounds access"),
+    "guard-cbc": ("src/raw_cbc.c", "CBC_start_operation", "IV length = block length, everything else refused"),
+    "guard-ofb": ("src/raw_ofb.c", "OFB_start_operation", "IV length = block length, everything else refused"),
+    "guard-ctr": ("src/raw_ctr.c", "CTR_start_operation", "counter block length = block length, 0 < counter length, prefix + counter <= block length, everything else refused"),
     "ctr": ("src/raw_ctr.c", "CTR_encrypt", "SP 800-38A 6.5: output block i = data XOR E(prefix || (counter0 + i mod 256^counter_len) || postfix), big and little endian counters, for every chunking (the 8-block look-ahead included)"),
     "ctrwrap": ("src/raw_ctr.c", "CTR_encrypt", "the keystream is refused with ERR_CTR_REPEATED_KEY_STREAM as soon as the counter would repeat (block_len * 256^counter_len bytes)"),
     "cfb": ("src/raw_cfb.c", "CFB_transcrypt", "SP 800-38A 6.3 for every segment size 1..block_len, both directions, every chunking"),
@@ -250,6 +306,7 @@ def mode_tables(check, ctx, kinds, rule="K-sym"):
     if "cfb" in kinds:
         rows += _cfb_rows()
     rows += [r for r in _blk_rows() if r[0] in kinds]
+    rows += [r for r in _guard_rows() if r[0] in kinds]
     res = run_rows(ctx.root, rows)
     by = {}
     for row, err in res:
